@@ -8,7 +8,8 @@ Inductive case :=
           (where_ : option cond) (full skeleton gzip : bool) (ok : bool) (obs : list (str * obsrel))
 | CRefresh (sch : kschema) (fs : files) (new_sch : option kschema) (skeleton gzip : bool)
            (ok : bool) (obs : list (str * obsrel))
-| CLines (fields : list field) (lines : list str) (obs : option (list str)).
+| CLines (fields : list field) (lines : list str) (obs : option (list str))
+| CDelim (delim : N) (fields : list field) (lines : list str) (obs : option (list str)).
 
 Definition plain_schema (s : kschema) : schema := map (fun e => (fst e, plain_fields (snd e))) s.
 
@@ -32,4 +33,5 @@ Definition check_case (c : case) : bool :=
           ok && check_obs (mkprof_cleanup fs' (map fst s2) skel (map fst sch)) obs
       end
   | CLines fields lines obs => option_eqb (list_eqb str_eqb) (items_from_lines fields lines) obs
+  | CDelim delim fields lines obs => option_eqb (list_eqb str_eqb) (items_from_delimited delim fields lines) obs
   end.
